@@ -1,8 +1,11 @@
-//! UDP swarm store: drives the real `aquatic_udp::swarm::TorrentMaps`
-//! (announce / scrape / clean_and_update_statistics) with generated histories.
+//! UDP and HTTP swarm stores: drives the real `aquatic_udp::swarm::TorrentMaps`
+//! (announce / scrape / clean_and_update_statistics) and the real
+//! `aquatic_http` `TorrentMaps` (handle_announce_request / handle_scrape_request /
+//! clean, reached through the `verif-hooks` re-export and the clock override)
+//! with generated histories.
 //!
 //! Line format (inputs `=>` implementation outputs):
-//!   cfg udp <max_response_peers> <max_scrape>
+//!   cfg udp|http <max_response_peers> <max_scrape>
 //!   new
 //!   ann <4|6> <hash> <ip> <port> <event> <left> <numwant> <deadline> <peerid>
 //!        => <seeders> <leechers> <ip:port;…|-> <stat msgs|->
@@ -50,7 +53,7 @@ pub fn arr20(v: &[u8]) -> [u8; 20] {
 
 #[derive(Clone, Debug)]
 pub enum Op {
-    Cfg { max_peers: usize },
+    Cfg { http: bool, max_peers: usize, max_scrape: usize },
     New,
     Ann { fam: u8, hash: [u8; 20], ip: Vec<u8>, port: u16, event: String, left: i64, numwant: i32, dl: u32, pid: [u8; 20] },
     Scr { fam: u8, hashes: Vec<[u8; 20]> },
@@ -68,7 +71,7 @@ fn join_hashes(hs: &[[u8; 20]]) -> String {
 impl Op {
     pub fn text(&self) -> String {
         match self {
-            Op::Cfg { max_peers } => format!("cfg udp {} 1000000", max_peers),
+            Op::Cfg { http, max_peers, max_scrape } => format!("cfg {} {} {}", if *http { "http" } else { "udp" }, max_peers, max_scrape),
             Op::New => "new".into(),
             Op::Ann { fam, hash, ip, port, event, left, numwant, dl, pid } => format!(
                 "ann {} {} {} {} {} {} {} {} {}",
@@ -86,7 +89,7 @@ impl Op {
             if s == "-" { vec![] } else { s.split(',').map(|h| arr20(&unhex(h))).collect() }
         };
         match t.as_slice() {
-            ["cfg", "udp", mp, _] => Some(Op::Cfg { max_peers: mp.parse().ok()? }),
+            ["cfg", kind, mp, ms] => Some(Op::Cfg { http: *kind == "http", max_peers: mp.parse().ok()?, max_scrape: ms.parse().ok()? }),
             ["new"] => Some(Op::New),
             ["ann", fam, hash, ip, port, event, left, numwant, dl, pid] => Some(Op::Ann {
                 fam: fam.parse().ok()?,
@@ -104,6 +107,11 @@ impl Op {
             _ => None,
         }
     }
+}
+
+pub trait Backend {
+    /// runs the op on the real code; returns the output tokens ("" for cfg/new)
+    fn exec(&mut self, op: &Op) -> String;
 }
 
 pub struct Exec {
@@ -169,10 +177,12 @@ impl Exec {
         if v.is_empty() { "-".into() } else { v.join(";") }
     }
 
-    /// runs the op on the real code; returns the output tokens
-    pub fn exec(&mut self, op: &Op) -> String {
+}
+
+impl Backend for Exec {
+    fn exec(&mut self, op: &Op) -> String {
         match op {
-            Op::Cfg { max_peers } => {
+            Op::Cfg { max_peers, .. } => {
                 self.config.protocol.max_response_peers = *max_peers;
                 String::new()
             }
@@ -304,12 +314,13 @@ pub fn pools(r: &mut Sm, nkeys: usize) -> Pools {
 }
 
 /// one generated history
-pub fn gen_history(r: &mut Sm, maxops: usize) -> Vec<Op> {
+pub fn gen_history(r: &mut Sm, maxops: usize, http: bool) -> Vec<Op> {
     let mut ops = Vec::new();
     let max_peers = r.pick(&[0usize, 1, 2, 3, 4, 5, 8, 30]);
-    ops.push(Op::Cfg { max_peers });
+    let max_scrape = if http { r.pick(&[1usize, 2, 3, 100]) } else { 1000000 };
+    ops.push(Op::Cfg { http, max_peers, max_scrape });
     ops.push(Op::New);
-    let nkeys = r.pick(&[3usize, 5, 8, 12, 16]);
+    let nkeys = if http { r.pick(&[4usize, 6, 8, 12, 16]) } else { r.pick(&[3usize, 5, 8, 12, 16]) };
     let p = pools(r, nkeys);
     let n = 5 + r.below(maxops.max(6) as u64 - 5) as usize;
     let mut now: u32 = r.below(5) as u32;
@@ -323,8 +334,9 @@ pub fn gen_history(r: &mut Sm, maxops: usize) -> Vec<Op> {
             let fam = if r.chance(75) { 4 } else { 6 };
             let (ip, port) = if fam == 4 { r.pick_ref(&p.keys4) } else { r.pick_ref(&p.keys6) };
             let event = r.pick(&["none", "none", "started", "completed", "stopped"]).to_string();
-            let left = r.pick(&[0i64, 0, 1, 1, i64::MAX, -1, 12345]);
-            let numwant = r.pick(&[i32::MIN, -1, 0, 0, 1, 2, 3, 4, 7, 100, i32::MAX]);
+            let left = if http { r.pick(&[0i64, 0, 1, 1, i64::MAX, 12345]) } else { r.pick(&[0i64, 0, 1, 1, i64::MAX, -1, 12345]) };
+            // HTTP: -1 encodes an absent numwant
+            let numwant = if http { r.pick(&[-1i32, -1, 0, 1, 2, 3, 4, 7, 100, i32::MAX]) } else { r.pick(&[i32::MIN, -1, 0, 0, 1, 2, 3, 4, 7, 100, i32::MAX]) };
             let age = r.pick(&[1u32, 2, 3, 5, 10]);
             let dl = now + age;
             deadlines.push(dl);
@@ -334,7 +346,7 @@ pub fn gen_history(r: &mut Sm, maxops: usize) -> Vec<Op> {
             }
         } else if k < 84 {
             let fam = if r.chance(75) { 4 } else { 6 };
-            let cnt = r.below(5) as usize;
+            let cnt = r.below(if http { 7 } else { 5 }) as usize;
             let mut hs: Vec<[u8; 20]> = (0..cnt).map(|_| r.pick(&p.hashes)).collect();
             if r.chance(20) {
                 hs.push([0xee; 20]);
@@ -371,7 +383,8 @@ pub fn gen_history(r: &mut Sm, maxops: usize) -> Vec<Op> {
 }
 
 pub fn run_ops(out: &mut impl Write, ops: &[Op], seed: u64) {
-    let mut ex = Exec::new(seed);
+    let http = matches!(ops.first(), Some(Op::Cfg { http: true, .. }));
+    let mut ex: Box<dyn Backend> = if http { Box::new(crate::httpstore::HttpExec::new(seed)) } else { Box::new(Exec::new(seed)) };
     for op in ops {
         // a panic of the real code is an outcome to report, not a harness failure
         let r = std::panic::catch_unwind(std::panic::AssertUnwindSafe(|| ex.exec(op)));
@@ -386,7 +399,7 @@ pub fn run_ops(out: &mut impl Write, ops: &[Op], seed: u64) {
     }
 }
 
-pub fn run(out: &mut impl Write, seed: u64, cases: usize, maxops: usize, replay: &str) {
+pub fn run(out: &mut impl Write, seed: u64, cases: usize, maxops: usize, replay: &str, http: bool) {
     if !replay.is_empty() {
         let text = std::fs::read_to_string(replay).expect("replay file");
         let ops: Vec<Op> = text.lines().filter_map(Op::parse).collect();
@@ -396,7 +409,7 @@ pub fn run(out: &mut impl Write, seed: u64, cases: usize, maxops: usize, replay:
     let mut master = Sm::new(seed);
     for case in 0..cases {
         let mut r = master.fork(case as u64);
-        let ops = gen_history(&mut r, maxops);
+        let ops = gen_history(&mut r, maxops, http);
         run_ops(out, &ops, seed ^ case as u64);
     }
 }
